@@ -328,6 +328,23 @@ Definition run (c : case) : list Z := run_cfg cfg_fixed c.
 Module Legacy.
   Definition cfg_legacy : cfg := mk_cfg false false false false false false false.
   Definition run (c : case) : list Z := run_cfg cfg_legacy c.
+
+  (* Variant::convert before the pre-landed "fix: implicit unsigned to signed conversions wrapped"
+     (C06 owns it): the unsigned -> signed arms of equal width were `as` casts.  Only what a
+     comparison sees of it: Equals after the wrapping conversion. *)
+  Definition wrap_signed (d : ity) (z : Z) : Z := if ity_hi d <? z then z - 2 * (ity_hi d + 1) else z.
+  Definition convert_wrapping (v : value) (target : tyid) : value :=
+    match v, target with
+    | VInt Byte z, TInt SByte => VInt SByte (wrap_signed SByte z)
+    | VInt UInt16 z, TInt Int16 => VInt Int16 (wrap_signed Int16 z)
+    | VInt UInt32 z, TInt Int32 => VInt Int32 (wrap_signed Int32 z)
+    | VInt UInt64 z, TInt Int64 => VInt Int64 (wrap_signed Int64 z)
+    | _, _ => convert v target
+    end.
+  Definition equals_wrapping (v1 v2 : value) : option bool :=
+    let '(a, b) := if precedence (type_id v1) <? precedence (type_id v2) then (v1, convert_wrapping v2 (type_id v1))
+                   else (convert_wrapping v1 (type_id v2), v2) in
+    match compare_values cfg_fixed a b with Some r => Some (cmpres_eqb r CEq) | None => None end.
 End Legacy.
 
 (* ==== the reference evaluator (Part 4), written over expression trees ============================ *)
